@@ -971,3 +971,31 @@ impl TokenParser {
         self.parser.invalidate_bias_cache();
     }
 }
+
+// Verification hook (additive; compiled only with `--cfg llg_verif`).
+#[cfg(llg_verif)]
+impl TokenParser {
+    pub fn verif_state_key(&self, out: &mut Vec<u64>) {
+        out.push(0xB1);
+        out.push(self.stop_reason as u64);
+        out.push(self.is_fresh as u64);
+        out.push(self.error_message.is_some() as u64);
+        out.push(if self.max_tokens_total > (1 << 40) {
+            u64::MAX
+        } else {
+            self.max_tokens_total as u64
+        });
+        out.extend(self.pending_grm_prefix().iter().map(|b| *b as u64));
+        out.push(0xB2);
+        if self.token_env.tokenize_is_canonical() {
+            out.push(self.llm_tokens.last().map(|t| *t as u64).unwrap_or(u64::MAX));
+        }
+        // an EOS token that was accepted is not seen by the inner parser
+        out.push(
+            self.llm_tokens
+                .last()
+                .is_some_and(|t| self.eos_tokens.contains(t)) as u64,
+        );
+        self.parser.verif_state_key(out);
+    }
+}
